@@ -18,7 +18,8 @@ RULE = ('the same public calls (estimate_markov_model, dynamical_coring, md wait
         '(thorough: also 2) plus numba.set_num_threads inside the compiled process. Compared pairwise: '
         'integers/labels identical, floats within 1e-12 (1e-9 across thread counts), errors of the same '
         'kind. Non-trivial: >= 2 trajectories and a non-error result, or an error in all configurations.'
-        ' Added classes: float32 and integer matrices for row_normalize_matrix, one contingency cell with > 65535 frames, 32..200 trajectories (one without a core), search values outside the range of a narrow array / non-integral.')
+        ' Added classes: float32 and integer matrices for row_normalize_matrix, one contingency cell with > 65535 frames, 32..200 trajectories (one without a core), search values outside the range of a narrow array / non-integral.'
+        ' Later: Fortran-ordered / transposed matrices for matrix_power and the ergodicity tests, basin labels >= 64 next to a trajectory with small labels only, macro data shorter than micro data.')
 TRUSTED = ['numba code generation and scheduling (runtime; the model cannot exhibit a miscompilation, only its effect)']
 ASSUMPTIONS = []
 BATCH = 60
